@@ -474,3 +474,240 @@ Proof.
   - cbn [with_sh sh]. eapply frameD; [exact I | unfold same_close; cbn; tauto | intros [|[|[|t]]]; reflexivity].
   - cbn [with_sh sh]. eapply frameD; [exact I | unfold same_close; cbn; tauto | intros [|[|[|t]]]; reflexivity].
 Qed.
+
+(* ---- E: after the connection is closed nothing is written; flags are monotone; wg ---- *)
+Lemma log_result_facts : forall me h s r, 
+  noticed (log_result me h s r) = noticed h /\ wg (log_result me h s r) = wg h /\ tick_r (log_result me h s r) = tick_r h /\
+  tick_k (log_result me h s r) = tick_k h /\ peer_closed (log_result me h s r) = peer_closed h /\
+  wire (log_result me h s r) = wire h /\
+  (r <> ROk -> filter is_ok (app_log (log_result me h s r)) = filter is_ok (app_log h)).
+Proof.
+  intros [|me] h s r; unfold log_result.
+  - cbn. repeat split; auto. destruct r; cbn; auto. congruence.
+  - destruct r, s, (rounds h); cbn; repeat split; auto.
+Qed.
+
+Lemma send_step_facts : forall me h p h' r, send_step me h p = (h', r) ->
+  noticed h' = noticed h /\ wg h' = wg h /\ tick_r h' = tick_r h /\ tick_k h' = tick_k h /\ peer_closed h' = peer_closed h /\
+  (closed h = true -> wire h' = wire h /\ filter is_ok (app_log h') = filter is_ok (app_log h)).
+Proof.
+  intros me h p h' r E.
+  destruct p as [[tid|tid n]|s|s|s hdr|s ok]; cbn in E;
+    try (destruct (memN _ (templates h))); try (destruct (send_lock h)); try (destruct (closed h) eqn:EC);
+    inversion E; subst;
+    try (match goal with |- context [log_result ?m ?hh ?ss ?rr] =>
+           destruct (log_result_facts m hh ss rr) as (L1 & L2 & L3 & L4 & L5 & L6 & L7) end;
+         rewrite L1, L2, L3, L4, L5, L6; cbn; repeat split; auto; try discriminate; apply L7; discriminate);
+    cbn; repeat split; auto; try discriminate.
+Qed.
+
+Lemma close_step_flags : forall me wait h c h' r, close_step me wait h c = (h', r) ->
+  (is_closed h = true -> is_closed h' = true) /\ (stop_closed h = true -> stop_closed h' = true).
+Proof.
+  intros me wait h c h' r H. destruct c, wait; cbn in H;
+    try (destruct (is_closed h) eqn:EI); try (destruct (wg h) eqn:EW); inversion H; subst; cbn;
+    split; intros; try discriminate; auto; try congruence.
+Qed.
+
+Definition bg (x : xstate) : nat :=
+  (match refr x with RDone => 0 | _ => 1 end) + (match chk x with KDone => 0 | _ => 1 end).
+
+Record step_facts (x x' : xstate) : Prop := MkFacts {
+  sf_isclosed : is_closed (sh x) = true -> is_closed (sh x') = true;
+  sf_closed : closed (sh x) = true -> closed (sh x') = true;
+  sf_stop : stop_closed (sh x) = true -> stop_closed (sh x') = true;
+  sf_frozen : closed (sh x) = true -> wire (sh x') = wire (sh x) /\ filter is_ok (app_log (sh x')) = filter is_ok (app_log (sh x));
+  sf_noticed : noticed (sh x') = true -> noticed (sh x) = true \/ chk x' = KClose CSwap;
+  sf_wg : wg (sh x) = bg x -> wg (sh x') = bg x';
+  sf_nowait : (refr x <> RClose CWait -> refr x' <> RClose CWait) /\ (chk x <> KClose CWait -> chk x' <> KClose CWait);
+  sf_kswap : chk x = KClose CSwap -> chk x' = KClose CSwap \/ is_closed (sh x') = true }.
+
+Lemma close_swap_closed : forall me w h h' rr, close_step me w h CSwap = (h', rr) -> is_closed h' = true.
+Proof. intros me w h h' rr E. cbn in E. destruct (is_closed h) eqn:EI, w; inversion E; subst; cbn; auto. Qed.
+
+Lemma same_close_closed : forall h h', same_close h h' -> is_closed h' = is_closed h /\ closed h' = closed h /\ stop_closed h' = stop_closed h.
+Proof. unfold same_close; tauto. Qed.
+
+Ltac sf_one :=
+  cbn [sh refr chk bg a_ph a_todo closers] in *; unfold wg_done in *; cbn in *; intros;
+  try discriminate; try congruence; auto;
+  try (split; intros; try discriminate; try congruence; auto; fail);
+  try (match goal with G : closed ?h = true -> _ /\ _ |- _ => apply G; assumption end);
+  try (left; congruence); try (right; reflexivity);
+  try (match goal with H : KClose ?c = KClose CSwap |- _ => inversion H; subst; right; cbn; eapply close_swap_closed; eassumption end);
+  try (match goal with k : kstate |- _ => destruct k; cbn in *; lia end);
+  try (match goal with r : rstate |- _ => destruct r; cbn in *; lia end);
+  try lia.
+Ltac sf := constructor; sf_one.
+
+Lemma close_false_nowait : forall me h c h' c', close_step me false h c = (h', CCont c') -> c' <> CWait.
+Proof.
+  intros me h c h' c' E. destruct c; cbn in E; try (destruct (is_closed h)); try (destruct (wg h));
+    inversion E; subst; discriminate.
+Qed.
+
+Lemma xstep_facts : forall x a, step_facts x (xstep x a).
+Proof.
+  intros [h todo aph r k cl] a.
+  destruct a as [t choice| | |]; [destruct t as [|[|[|t]]]|..]; cbn [xstep].
+  - unfold step_app; cbn [a_ph a_todo sh refr chk closers]. destruct aph as [|p|c].
+    + destruct todo as [|[s|] todo]; sf.
+    + destruct (send_step 0 h p) as [h' rr] eqn:E. pose proof (send_step_close _ _ _ _ _ E) as J.
+      apply same_close_closed in J. destruct J as (J1 & J2 & J3).
+      destruct (send_step_facts _ _ _ _ _ E) as (G1 & G2 & G3 & G4 & G5 & G6).
+      destruct rr; sf.
+    + destruct (close_step 0 true h c) as [h' rr] eqn:E. close_case E. destruct (close_step_flags _ _ _ _ _ _ E) as (G1 & G2).
+      destruct rr; sf.
+  - unfold step_refr; cbn [a_ph a_todo sh refr chk closers]. destruct r as [| |td [p|]|c|].
+    + destruct (stop_closed h), (tick_r h); try destruct choice; sf.
+    + sf.
+    + destruct (send_step 1 h p) as [h' rr] eqn:E. pose proof (send_step_close _ _ _ _ _ E) as J.
+      apply same_close_closed in J. destruct J as (J1 & J2 & J3).
+      destruct (send_step_facts _ _ _ _ _ E) as (G1 & G2 & G3 & G4 & G5 & G6).
+      destruct rr as [p'|[|]|]; destruct td; sf.
+    + destruct td as [|t td]; [destruct (rounds h)|]; sf.
+    + destruct (close_step 1 false h c) as [h' rr] eqn:E. close_case E. destruct (close_step_flags _ _ _ _ _ _ E) as (G1 & G2).
+      destruct rr as [c'| |]; [pose proof (close_false_nowait _ _ _ _ _ E)| |]; sf.
+    + sf.
+  - unfold step_chk; cbn [a_ph a_todo sh refr chk closers]. destruct k as [| |c|].
+    + destruct (stop_closed h), (tick_k h); try destruct choice; sf.
+    + destruct (peer_closed h); sf.
+    + destruct (close_step 2 false h c) as [h' rr] eqn:E. close_case E. destruct (close_step_flags _ _ _ _ _ _ E) as (G1 & G2).
+      destruct rr as [c'| |]; [pose proof (close_false_nowait _ _ _ _ _ E)| |]; sf.
+    + sf.
+  - unfold step_closer; cbn [a_ph a_todo sh refr chk closers]. destruct (cl (S (S (S t)))) as [n [c|]] eqn:ECl.
+    + destruct (close_step (S (S (S t))) true h c) as [h' rr] eqn:E. close_case E. destruct (close_step_flags _ _ _ _ _ _ E) as (G1 & G2).
+      destruct rr; destruct n; sf.
+    + destruct n; sf.
+  - sf.
+  - sf.
+  - sf.
+Qed.
+
+(* ========================= run-level theorems ========================= *)
+Lemma xrun_app : forall a b x, xrun x (a ++ b) = xrun (xrun x a) b.
+Proof. intros. unfold xrun. apply fold_left_app. Qed.
+
+Lemma xrun_ind : forall (P : xstate -> Prop), (forall x a, P x -> P (xstep x a)) ->
+  forall sched x, P x -> P (xrun x sched).
+Proof. intros P H. induction sched as [|a r IH]; intros x Hx; cbn; [exact Hx | apply IH, H, Hx]. Qed.
+
+Definition reach (udp : bool) (prog : list aop) (ncalls : nat -> nat) (sched : list action) : xstate :=
+  xrun (xinit udp prog ncalls) sched.
+
+Lemma init_A : forall udp prog n, invA (xinit udp prog n).
+Proof. intros [] prog n; unfold invA, invA'; cbn; repeat split; auto. Qed.
+Lemma init_B : forall udp prog n, invB prog (xinit udp prog n).
+Proof. intros [] prog n; unfold invB, invB'; cbn; repeat split; auto. Qed.
+Lemma init_C : forall udp prog n, invC (xinit udp prog n).
+Proof. intros [] prog n; unfold invC, invC'; cbn; repeat split; auto. Qed.
+Lemma init_D : forall udp prog n, invD (xinit udp prog n).
+Proof.
+  intros [] prog n; unfold invD, invD'; cbn; repeat split; auto; try discriminate;
+    intros [|[|[|t]]] H; cbn in H; congruence.
+Qed.
+
+Lemma reach_A : forall udp prog n sched, invA (reach udp prog n sched).
+Proof. intros. unfold reach. apply xrun_ind; [apply invA_step | apply init_A]. Qed.
+Lemma reach_B : forall udp prog n sched, invB prog (reach udp prog n sched).
+Proof. intros. unfold reach. apply xrun_ind; [apply invB_step | apply init_B]. Qed.
+Lemma reach_C : forall udp prog n sched, invC (reach udp prog n sched).
+Proof. intros. unfold reach. apply xrun_ind; [apply invC_step | apply init_C]. Qed.
+Lemma reach_D : forall udp prog n sched, invD (reach udp prog n sched).
+Proof. intros. unfold reach. apply xrun_ind; [apply invD_step | apply init_D]. Qed.
+
+(* (1) header order = wire order: every message on the wire, in wire order, carries the running
+   count of data records (mod 2^32) - for every schedule *)
+Theorem exp_wire_wf : forall udp prog n sched, wire_seq_ok (wire (sh (reach udp prog n sched))).
+Proof.
+  intros. destruct (reach_A udp prog n sched) as (_ & _ & H & _). exact H.
+Qed.
+
+(* (2) the application's messages are on the wire in the application's order: they are exactly
+   its successful sends, and its log follows its program *)
+Theorem exp_app_order : forall udp prog n sched,
+  let x := reach udp prog n sched in
+  map m_set (filter (from 0) (wire (sh x))) = map fst (filter is_ok (app_log (sh x))) /\
+  rev (map fst (app_log (sh x))) ++ pending (a_ph x) ++ sends (a_todo x) = sends prog.
+Proof.
+  intros. destruct (reach_B udp prog n sched) as (H1 & _ & _ & H4). split; assumption.
+Qed.
+
+(* (3) once a send has failed at the connection no later send succeeds *)
+Theorem exp_mono : forall udp prog n sched, mono (app_log (sh (reach udp prog n sched))).
+Proof.
+  intros. destruct (reach_B udp prog n sched) as (_ & H & _). exact H.
+Qed.
+
+(* (4) after the first close has completed (conn.Close executed) no byte is written, whatever
+   runs afterwards, and no send succeeds *)
+Theorem exp_frozen : forall s2 x, closed (sh x) = true ->
+  closed (sh (xrun x s2)) = true /\ wire (sh (xrun x s2)) = wire (sh x) /\
+  filter is_ok (app_log (sh (xrun x s2))) = filter is_ok (app_log (sh x)).
+Proof.
+  induction s2 as [|a r IH]; intros x C; [cbn; auto|]. change (xrun x (a :: r)) with (xrun (xstep x a) r).
+  destruct (xstep_facts x a) as [_ F2 _ F4 _ _ _ _]. destruct (F4 C) as (W & L).
+  destruct (IH (xstep x a) (F2 C)) as (I1 & I2 & I3). repeat split; congruence.
+Qed.
+
+(* (5) refresh rounds: the refresher's messages are exactly the rounds' templates; every completed
+   round sent exactly its snapshot, in order; snapshots only grow and are registered templates;
+   and a snapshot is the set of templates registered at that moment *)
+Theorem exp_rounds : forall udp prog n sched,
+  let h := sh (reach udp prog n sched) in
+  map m_set (filter (from 1) (wire h)) = map STemplate (flat_map r_sent (rounds h)) /\
+  Forall (fun rd => r_complete rd = true -> rev (r_sent rd) = r_snap rd) (rounds h) /\
+  chain (templates h) (rounds h).
+Proof.
+  intros. destruct (reach_C udp prog n sched) as (H1 & H2 & _ & H4). repeat split; assumption.
+Qed.
+Theorem exp_snapshot : forall x c, refr x = RSnap ->
+  rounds (sh (xstep x (AStep 1 c))) = MkRound (templates (sh x)) [] false :: rounds (sh x).
+Proof. intros [h todo aph r k cl] c E. cbn in E. subst r. reflexivity. Qed.
+
+(* (6) closing is idempotent from any thread: however many threads call it however often, the
+   stop channel is closed at most once (never a double close), conn.Close runs at most once *)
+Theorem exp_close_once : forall udp prog n sched,
+  let h := sh (reach udp prog n sched) in
+  panicked h = false /\ n_stop h <= 1 /\ n_conn h <= 1 /\ (closed h = true -> stop_closed h = true /\ is_closed h = true).
+Proof.
+  intros. destruct (reach_D udp prog n sched) as (D1 & D2 & D3 & _). fold h in D1, D2, D3.
+  destruct (is_closed h) eqn:E.
+  - destruct (D3 eq_refl) as (w & _ & M).
+    destruct (cnorm (cph_of (reach udp prog n sched) w)) as [|[|[|]]]; destruct M as (N1 & N2 & St & Cl);
+      repeat split; auto; try lia; try congruence.
+  - destruct (D2 eq_refl) as (_ & N1 & N2 & Cl & St). repeat split; auto; try lia; congruence.
+Qed.
+
+(* (7) over TCP: once the checker has seen the peer's close and has taken its step of
+   closeConnToCollector, the exporter is closing; unless another thread is at that moment in the
+   middle of the same close, the connection is closed - and then (4): every later send fails *)
+Theorem exp_peer_noticed : forall udp prog n sched,
+  let x := reach udp prog n sched in
+  noticed (sh x) = true -> chk x <> KClose CSwap ->
+  is_closed (sh x) = true /\
+  (closed (sh x) = true \/ exists w, winner (sh x) = Some w /\ cnorm (cph_of x w) <> 0).
+Proof.
+  intros udp prog n sched x N K.
+  assert (noticed (sh x) = true -> chk x = KClose CSwap \/ is_closed (sh x) = true) as HK.
+  { unfold x, reach. apply xrun_ind.
+    - intros y a IH Ny. destruct (xstep_facts y a) as [F1 _ _ _ F5 _ _ F8].
+      destruct (F5 Ny) as [Ny'|]; [|left; assumption].
+      destruct (IH Ny') as [Kc|Ic]; [apply F8; assumption | right; apply F1; assumption].
+    - destruct udp; cbn; discriminate. }
+  destruct (HK N) as [|Ic]; [contradiction|]. split; [exact Ic|].
+  destruct (reach_D udp prog n sched) as (_ & _ & D3 & _). fold x in D3.
+  destruct (D3 Ic) as (w & Hw & M).
+  destruct (cnorm (cph_of x w)) as [|[|[|]]] eqn:E; destruct M as (_ & _ & _ & Cl); auto;
+    right; exists w; rewrite E; split; auto.
+Qed.
+
+(* wg counts the live background goroutines; they never wait on wg *)
+Theorem exp_wg : forall udp prog n sched,
+  let x := reach udp prog n sched in
+  wg (sh x) = bg x /\ refr x <> RClose CWait /\ chk x <> KClose CWait.
+Proof.
+  intros. unfold x, reach. apply xrun_ind.
+  - intros y a (W & R & K). destruct (xstep_facts y a) as [_ _ _ _ _ F6 (F7a & F7b) _]. auto.
+  - destruct udp; cbn; repeat split; discriminate.
+Qed.
